@@ -248,43 +248,54 @@ def r09e(ctx):
             if f.qual in done:
                 continue
             done.add(f.qual)
-            kind = {}      # local name -> "DOC" | "DOCS"
+            # name -> [(line of the binding, kind)]; a name may be re-bound (`docs = docs[0]`), so what it holds at a use is
+            # the union over the bindings above that use, and "may be a document" is what matters for a truth test
+            binds = {}
 
-            def classify(e):
+            def kind_of_name(name, line):
+                ks = {k for ln, k in binds.get(name, ()) if ln < line}
+                return "DOC" if "DOC" in ks else ("DOCS" if "DOCS" in ks else None)
+
+            def classify(e, line=None):
+                line = line if line is not None else getattr(e, "lineno", 10 ** 9)
                 if isinstance(e, ast.Call):
                     nm = (call_name(e) or "").rsplit(".", 1)[-1]
                     r = m.resolve_expr(f.module, e.func)
                     ext = bool(r and r[0] and r[0][0] == "ext")
                     if ext and nm in PARSE_NAMES:
                         return "DOCS" if nm.endswith("_all") else "DOC"
-                    if nm in ("list", "tuple", "iter") and len(e.args) == 1 and classify(e.args[0]) == "DOCS":
+                    if nm in ("list", "tuple", "iter") and len(e.args) == 1 and classify(e.args[0], line) == "DOCS":
                         return "DOCS"
-                    if nm == "next" and e.args and classify(e.args[0]) == "DOCS":
+                    if nm == "next" and e.args and classify(e.args[0], line) == "DOCS":
                         return "DOC"
                     return None
                 if isinstance(e, ast.Name):
-                    return kind.get(e.id)
-                if isinstance(e, (ast.ListComp, ast.GeneratorExp)) and len(e.generators) == 1 and classify(e.generators[0].iter) == "DOCS" \
+                    return kind_of_name(e.id, line)
+                if isinstance(e, (ast.ListComp, ast.GeneratorExp)) and len(e.generators) == 1 and classify(e.generators[0].iter, line) == "DOCS" \
                         and isinstance(e.generators[0].target, ast.Name) and dotted(e.elt) == e.generators[0].target.id:
                     return "DOCS"       # a (possibly filtered) copy of the documents
-                if isinstance(e, ast.Subscript) and classify(e.value) == "DOCS":
+                if isinstance(e, ast.Subscript) and classify(e.value, line) == "DOCS":
                     return "DOCS" if isinstance(e.slice, ast.Slice) else "DOC"
                 if isinstance(e, ast.IfExp):
-                    ks = {classify(e.body), classify(e.orelse)}
+                    ks = {classify(e.body, line), classify(e.orelse, line)}
                     return "DOC" if "DOC" in ks else ("DOCS" if "DOCS" in ks else None)     # may be a document
                 if isinstance(e, ast.BoolOp):
-                    ks = {classify(v) for v in e.values}
+                    ks = {classify(v, line) for v in e.values}
                     return "DOC" if "DOC" in ks else ("DOCS" if "DOCS" in ks else None)
                 return None
-            for _ in range(3):
-                for a in walk_no_nested(f.node):
+            stmts = sorted([a for a in walk_no_nested(f.node) if isinstance(a, (ast.Assign, ast.AnnAssign, ast.For, ast.comprehension))],
+                           key=lambda a: (getattr(a, "lineno", None) or getattr(a.target, "lineno", 0)))
+            for _ in range(2):
+                for a in stmts:
                     if isinstance(a, (ast.Assign, ast.AnnAssign)) and a.value is not None:
                         t = a.targets[0] if isinstance(a, ast.Assign) else a.target
-                        k = classify(a.value)
-                        if isinstance(t, ast.Name) and k:
-                            kind[t.id] = k
-                    elif isinstance(a, (ast.For, ast.comprehension)) and isinstance(a.target, ast.Name) and classify(a.iter) == "DOCS":
-                        kind[a.target.id] = "DOC"       # loop and comprehension variables alike
+                        k = classify(a.value, a.lineno)
+                        if isinstance(t, ast.Name) and k and (a.lineno, k) not in binds.setdefault(t.id, []):
+                            binds[t.id].append((a.lineno, k))
+                    elif isinstance(a, (ast.For, ast.comprehension)) and isinstance(a.target, ast.Name):
+                        ln = getattr(a, "lineno", None) or a.target.lineno
+                        if classify(a.iter, ln + 1 if isinstance(a, ast.comprehension) else ln) == "DOCS" and (ln - 1, "DOC") not in binds.setdefault(a.target.id, []):
+                            binds[a.target.id].append((ln - 1, "DOC"))       # loop and comprehension variables alike
             parses = [c for c in walk_no_nested(f.node) if isinstance(c, ast.Call) and classify(c) in ("DOC", "DOCS")
                       and (call_name(c) or "").rsplit(".", 1)[-1] in PARSE_NAMES]
             if not parses:
